@@ -180,7 +180,7 @@ prop('C02',
      assumes=['A-FS: ghost model of the entry at one path (nothing / directory / other) with in-context contracts of screw.Lstat, RemoveAll, MkdirAll',
               'fspool.GetPath(stagePool, i) lies in the stage folder (the pool was built over StageFolder in NewOverlayBowl: not under contract)',
               'A-POOL; everything C14 assumes for the overlay stream'],
-     not_decided='the commit phase AS A WHOLE: which path is renamed or copied where and in which order by applyTranspositions (clash-free renames over all map iteration orders), deleteGhosts, the order of the five sub-phases, and the resulting directory tree -- relations between whole trees over all path-level shapes are not expressible as function contracts within reach of this engine (no file-system tree model, strings are opaque).  Decided are the file-level steps and the work lists: entry writers get stage paths; copy replaces the destination (create+write+truncate) with the source bytes; move = rename or copy+remove; every file listed for a move is moved stage->output; every listed overlay is applied onto the old file opened without create/truncate and the file is cut at the applier\'s final position; the clash pre-pass examines every transposition of every group; processDir leaves a real directory')
+     not_decided='the commit phase AS A WHOLE: which path is renamed or copied where and in which order by applyTranspositions (clash-free renames over all map iteration orders), what deleteGhosts removes, and the resulting directory tree -- relations between whole trees over all path-level shapes are not expressible as function contracts within reach of this engine (no file-system tree model, strings are opaque).  Decided are the file-level steps and the work lists: entry writers get stage paths; copy replaces the destination (create+write+truncate) with the source bytes; move = rename or copy+remove; every file listed for a move is moved stage->output; every listed overlay is applied onto the old file opened without create/truncate and the file is cut at the applier\'s final position; the clash pre-pass examines every transposition of every group; processDir leaves a real directory; the five commit phases run in the order dirs+links, transpositions, moves, overlays, ghosts, each only after the previous one succeeded (ghost phase counter in Commit)')
 
 prop('C03',
      functions=BOWL_LISTS + BOWL_FRESH + OVERLAY_ENTRY + WIRE_ALL + PATCHER + PATCHER_SERIES + [('/pwr/overlay', 'NewOverlayWriter'), ('/pwr/overlay', '(*overlayWriter).Finalize'), ('/pwr/overlay', '(*OverlayPatchContext).Patch')],
